@@ -356,7 +356,9 @@ def crud_directed(rng):
         st = [(1, [[kind, 1, 0 if kind < 2 else rng.randrange(3)]], [2], NOACT())]
         ops = setup(sets, st, [(1, [1])], [(1, 1, [1]), (0, 2, [1])])
         probe = gen_route(rng)
+        bad = [[[0], 1, 2], [0], [2], [3], [3], [3]][kind]
         attack = [[2, 1, SETGEN[kind](rng, 1)], [2, 0, sets[kind]], [1, 1, SETGEN[kind](rng, 1)], [1, 0, SETGEN[kind](rng, 1)],
+                  [1, 1, [kind, 1, []]], [1, 1, [kind, 1, [bad]]],      # replace whose add would fail: must not lose the in-use set
                   [4, 1, 1, [], [], NOACT()], [4, 1, 0, [[kind, 1, 0]], [], NOACT()], [3, 1, [[6, 0, 1]], [], NOACT()],
                   [6, 1, 0, 1, []], [6, 1, 0, 0, [1]], [5, 1, [1]], [6, 1, 1, 1, []]]
         rng.shuffle(attack)
@@ -365,6 +367,12 @@ def crud_directed(rng):
         ops += [[10], [8, 1, [1], 0], [8, 0, [], 1], probe, [6, 1, 1, 0, [1]], [4, 1, 0, [[kind, 1, 0]], [], NOACT()], [2, 0, sets[kind]],
                 [1, 1, SETGEN[kind](rng, 1)], [2, 1, sets[kind]], [10], [6, 1, 0, 1, []], [4, 1, 1, [], [], NOACT()]]
         out.append(mk('crud_directed', ops))
+    # replace_defined_set removes first and adds second: an UNUSED set is lost when the add fails (code 1), an in-use one is refused
+    for kind in range(6):
+        bad = [[[0], 1, 2], [0], [2], [3], [3], [3]][kind]
+        st = SETGEN[kind](rng, 1)
+        out.append(mk('crud_replace', [[1, 0, st], [10], [1, 1, [kind, 1, [bad]]], [10], [1, 0, st], [1, 1, [kind, 1, []]], [10],
+                                       [1, 0, st], [3, 1, [[kind, 1, 0]], [2], NOACT()], [1, 1, [kind, 1, [bad]]], [1, 1, [kind, 1, []]], [10]]))
     # host bits inside the boundary nibble: treebitmap refuses the key
     out.append(mk('crud_hostbits', [[1, 0, [0, 1, [[[ip4(10, 0, 0, 0), 6], 8, 32]]]]]))
     out.append(mk('crud_hostbits', [[1, 0, [0, 1, [[[ip4(10, 0, 0, 0), 8], 8, 32]]]], [1, 0, [0, 1, [[[ip4(10, 32, 0, 0), 10], 8, 32]]]]]))
